@@ -402,6 +402,24 @@ type Module struct {
 	Facts []Fact
 }
 
+// table files (tables_*.go) register a module by name; facts are computed lazily, after `repo` is set
+var moduleFns = map[string]func() []Fact{}
+
+func registerModule(name string, f func() []Fact) { moduleFns[name] = f }
+
+func allModules() []Module {
+	names := []string{}
+	for n := range moduleFns {
+		names = append(names, n)
+	}
+	sort.Strings(names)
+	out := []Module{}
+	for _, n := range names {
+		out = append(out, Module{n, moduleFns[n]()})
+	}
+	return out
+}
+
 func leanStr(s string) string {
 	s = strings.ReplaceAll(s, `\`, `\\`)
 	s = strings.ReplaceAll(s, `"`, `\"`)
